@@ -96,13 +96,13 @@ macro_rules! apply_kind {
             unsafe { b.move_unchecked_into(mv, &mut out) };
             let want = r::apply(&p, m);
             let got = view(&out);
-            assert!(got.col[0] == want.col[0] && got.col[1] == want.col[1], "VERIF successor colour sets wrong after {:?}", mv);
-            assert!(got.pcs[0] == want.pcs[0] && got.pcs[1] == want.pcs[1] && got.pcs[2] == want.pcs[2], "VERIF successor pawn/knight/bishop sets wrong after {:?}", mv);
-            assert!(got.pcs[3] == want.pcs[3] && got.pcs[4] == want.pcs[4] && got.pcs[5] == want.pcs[5], "VERIF successor rook/queen/king sets wrong after {:?}", mv);
+            assert!(got.col[0] == want.col[0] && got.col[1] == want.col[1], "VERIF successor colour sets wrong after {:?} on [{}]", mv, b);
+            assert!(got.pcs[0] == want.pcs[0] && got.pcs[1] == want.pcs[1] && got.pcs[2] == want.pcs[2], "VERIF successor pawn/knight/bishop sets wrong after {:?} on [{}]", mv, b);
+            assert!(got.pcs[3] == want.pcs[3] && got.pcs[4] == want.pcs[4] && got.pcs[5] == want.pcs[5], "VERIF successor rook/queen/king sets wrong after {:?} on [{}]", mv, b);
             assert!(got.turn == want.turn, "VERIF side to move not flipped after {:?}", mv);
-            assert!(got.rights == want.rights, "VERIF castling rights after {:?}: got {} want {}", mv, got.rights, want.rights);
-            assert!(got.ep == want.ep, "VERIF en-passant marker after {:?}: got {} want {}", mv, got.ep, want.ep);
-            assert!(got.half == want.half, "VERIF half-move clock after {:?}: got {} want {}", mv, got.half, want.half);
+            assert!(got.rights == want.rights, "VERIF castling rights after {:?} on [{}]: got {} want {}", mv, b, got.rights, want.rights);
+            assert!(got.ep == want.ep, "VERIF en-passant marker after {:?} on [{}]: got {} want {}", mv, b, got.ep, want.ep);
+            assert!(got.half == want.half, "VERIF half-move clock after {:?} on [{}]: got {} want {}", mv, b, got.half, want.half);
             assert!(got.full == want.full, "VERIF full-move number after {:?}: got {} want {}", mv, got.full, want.full);
             assert!(same_view(&view(&b), &view(&before)) && b.zobrist == before.zobrist, "VERIF make-move modified self");
         }
@@ -120,7 +120,7 @@ macro_rules! apply_kind {
             let (b, p, mv, m) = setup($kind);
             let mut out = any_board();
             unsafe { b.move_unchecked_into(mv, &mut out) };
-            assert!(out.zobrist == b.zobrist ^ hash_delta(&p, m), "VERIF incremental hash after {:?}", mv);
+            assert!(out.zobrist == b.zobrist ^ hash_delta(&p, m), "VERIF incremental hash after {:?} on [{}]", mv, b);
         }
 
         /// foreach-loop proof of the slider re-scan (as for update_pin_info): with the one-shot iterator the loop
@@ -157,8 +157,8 @@ macro_rules! apply_kind {
                     want_p = btw;
                 }
             }
-            assert!(out.checkers.to_u64() == want_c, "VERIF stale checkers after {:?}: {:#x} want {:#x}", mv, out.checkers.to_u64(), want_c);
-            assert!(out.pinned.to_u64() == want_p, "VERIF stale pinned after {:?}: {:#x} want {:#x}", mv, out.pinned.to_u64(), want_p);
+            assert!(out.checkers.to_u64() == want_c, "VERIF stale checkers after {:?} on [{}]: {:#x} want {:#x}", mv, b, out.checkers.to_u64(), want_c);
+            assert!(out.pinned.to_u64() == want_p, "VERIF stale pinned after {:?} on [{}]: {:#x} want {:#x}", mv, b, out.pinned.to_u64(), want_p);
         }
     };
 }
